@@ -1,4 +1,5 @@
 import os
+import re
 import sys
 
 from contextlib import contextmanager
@@ -14,6 +15,7 @@ except:
     SUFFIXES = [s for s, _, _ in imp.get_suffixes()]
 
 SOURCE_SUFFIXES = ('.py',)
+IDENTIFIER = re.compile(r'^[^\W\d]\w*$')
 
 if False:
     import typing as t
@@ -66,7 +68,9 @@ class Project(object):
                     if os.path.exists(os.path.join(pdir, name, '__init__.py')):
                         modules.add(name)
 
-        return modules
+        # file names like _sysconfigdata__linux_x86_64-linux-gnu.py are not
+        # importable by name
+        return set(m for m in modules if IDENTIFIER.match(m))
 
     @contextmanager
     def check_changes(self):
